@@ -1677,6 +1677,20 @@ impl ExternalSortExec {
                 let col_b = evaluate_expr(batch_b, &sort_expr.expr).ok();
 
                 if let (Some(a), Some(b)) = (col_a, col_b) {
+                    // NULL placement follows the requested NULLS FIRST/LAST (as the
+                    // sorted runs do), independently of ASC/DESC.
+                    let (a_null, b_null) = (a.is_null(row_a), b.is_null(row_b));
+                    if a_null || b_null {
+                        if a_null && b_null {
+                            continue;
+                        }
+                        let nulls_first = sort_expr.nulls == crate::planner::NullOrdering::NullsFirst;
+                        return if a_null == nulls_first {
+                            Ordering::Less
+                        } else {
+                            Ordering::Greater
+                        };
+                    }
                     let cmp = compare_array_values(&a, row_a, &b, row_b);
                     let cmp = if sort_expr.direction == crate::planner::SortDirection::Desc {
                         cmp.reverse()
